@@ -109,6 +109,11 @@ func (b *pipeBuf) read(p []byte, dl *deadliner, owner *Proc, limit int, closedEr
 			b.mu.Unlock()
 			return 0, nil
 		}
+		if !dlT.IsZero() && !dlT.After(now) {
+			// a deadline that has passed fails the call at once, data or not
+			b.mu.Unlock()
+			return 0, errTimeout
+		}
 		var until time.Duration = -1
 		if len(b.chunks) > 0 {
 			c := &b.chunks[0]
@@ -191,6 +196,11 @@ func (b *pipeBuf) write(p []byte, dl *deadliner, owner *Proc, lat time.Duration,
 		if len(p) == 0 {
 			b.mu.Unlock()
 			return total, nil
+		}
+		if !dlT.IsZero() && !dlT.After(now) {
+			// a deadline that has passed fails the call at once, room or not
+			b.mu.Unlock()
+			return total, errTimeout
 		}
 		if room := b.cap - b.size; room > 0 {
 			n := len(p)
